@@ -214,9 +214,14 @@ def _greedy_tape(rng, start, stop, fs, fe, eps, tol, nmax):
         cands += [rng.choice([-1.0, 1.0]) * rng.choice(base) * 2.0 ** rng.uniform(-30, 30) for _ in range(8)]
         cands = [y for y in cands if y == y and 2.0 ** -520 < abs(y) < 1e150]
         best, best_score = None, None
+        if x != x:              # NaN abscissa (overflow in the interpolation): the tape generator stops here
+            break
         for y in cands:
             r2 = copy.copy(rf)
-            r2.provide_ordinate(x, y)
+            try:
+                r2.provide_ordinate(x, y)
+            except AssertionError:
+                continue
             w = abs(r2.b - r2.a)
             try:
                 r2.get_next_abscissa()
@@ -226,7 +231,10 @@ def _greedy_tape(rng, start, stop, fs, fe, eps, tol, nmax):
             if best_score is None or score > best_score:
                 best, best_score = y, score
         y = best if best is not None else (rng.choice(cands) if cands else 1.0)
-        rf.provide_ordinate(x, y)
+        try:
+            rf.provide_ordinate(x, y)
+        except AssertionError:
+            break
         tape.append(y)
     return tape or [1.0]
 
@@ -364,6 +372,122 @@ def state_correspondence(rep: Report, rng, n: int) -> None:
     rep.extra["state_level_cases"] = len(lines)
 
 
+# ------------------------------------------------------------------ the loop function `find_root_brents`
+def gen_loop_case(rng):
+    """Calls of the public loop `find_root_brents` with a known location r of the (single) sign change,
+    including slow cases (asymmetric plateaus on wide brackets with tiny tolerances: > 100 evaluations)."""
+    kind = rng.choice(["step_asym", "step_asym", "poly", "atan", "step"])
+    if kind == "step_asym":
+        slow = rng.random() < 0.5     # wide bracket, tiny tolerance, tiny plateau: 100-250 evaluations
+        width = 10 ** (rng.uniform(8, 12) if slow else rng.uniform(2, 9))
+        start = 0.0 if slow else rng.choice([0.0, rng.uniform(-5, 5)])
+        # slow cases: root close to the fine end of the float grid so that a tiny tolerance is resolvable there
+        r = start + width * (10 ** -rng.uniform(2, 8) if slow else rng.uniform(0.05, 0.95))
+        lo, hi = -1.0, 10 ** (rng.uniform(-12, -8) if slow else rng.uniform(-12, -6))
+        if rng.random() < 0.5:
+            lo, hi = -hi, 1.0
+        f = lambda x, r=r, lo=lo, hi=hi: lo if x <= r else hi
+        tol = 10 ** (rng.uniform(-7, -5) if slow else rng.uniform(-7, -2))
+        # keep the tolerance resolvable in binary64 at the far end of the bracket (see finding F-C19-ulp below)
+        tol = max(tol, 16 * math.ulp(abs(r)) if slow else 16 * math.ulp(max(abs(start), abs(start + width))))
+        return dict(kind=kind, f=f, r=r, start=start, stop=start + width, tol=tol, eps=rng.choice([1e-6, 1e-9] if slow else [1e-6, 1e-9, 1.0]))
+    r = rng.uniform(-3, 3)
+    sc = 10 ** rng.uniform(-3, 3)
+    f = {"poly": lambda x: sc * (x - r) ** rng_k, "atan": lambda x: sc * math.atan(20 * (x - r)),
+         "step": lambda x: -sc if x <= r else 1.5 * sc}[kind]
+    rng_k = rng.choice([1, 3, 5])
+    start = r - 10 ** rng.uniform(-2, 1)
+    stop = r + 10 ** rng.uniform(-2, 1)
+    return dict(kind=kind, f=f, r=r, start=start, stop=stop, tol=10 ** rng.uniform(-9, -2), eps=rng.choice([1e-6, 1e-3, 1.0]))
+
+
+ULP_WITNESS = dict(kind="step_asym", r=279653027068.8003, start=0.0, stop=305927824863.2702,
+                   tol=4.2393837957337557e-07, eps=1e-06, lo=-1.0, hi=1e-9)
+
+
+def ulp_finding(rep: Report) -> None:
+    """Known finding F-C19-ulp: `find_root_brents` never terminates when the tolerance is below the binary64 spacing at
+    the root (|b-a| < tol can then never become true): witness replayed with an evaluation cap."""
+    from emu_base.math.brents_root_finding import find_root_brents
+    w = ULP_WITNESS
+    n = [0]
+
+    class Cap(Exception):
+        pass
+
+    def f(x):
+        n[0] += 1
+        if n[0] > 3000:
+            raise Cap()
+        return w["lo"] if x <= w["r"] else w["hi"]
+    try:
+        find_root_brents(f, start=w["start"], end=w["stop"], tolerance=w["tol"], epsilon=w["eps"])
+        rep.extra["ulp_witness"] = f"terminated after {n[0]} evaluations"
+    except Cap:
+        rep.extra["ulp_witness"] = "no termination within 3000 evaluations"
+        rep.fail("find_root_brents does not terminate: tolerance 4.2e-7 is below the binary64 spacing 6.1e-5 at the root 2.8e11, "
+                 "so |b-a| < tolerance can never hold", dict(w), klass="C19-tolerance-below-float-spacing")
+
+
+def loop_level(rep: Report, rng, n: int) -> None:
+    """`find_root_brents(f, …)` against the model's loop: the ordinates the real call obtained from f are the tape;
+    the model must be converged exactly when the real function returned, at the value it returned; and the returned
+    point must be within tol of the sign change (the statement of C19 for the public function)."""
+    from emu_base.math.brents_root_finding import find_root_brents
+    lines, meta = [], []
+    for _ in range(n):
+        c = gen_loop_case(rng)
+        calls = []
+
+        def f(x, c=c, calls=calls):
+            y = c["f"](x)
+            calls.append((x, y))
+            if len(calls) > 5000:
+                raise RuntimeError("runaway")
+            return y
+        give_ends = rng.random() < 0.5
+        try:
+            kw = dict(start=c["start"], end=c["stop"], tolerance=c["tol"], epsilon=c["eps"])
+            if give_ends:
+                kw.update(f_start=c["f"](c["start"]), f_end=c["f"](c["stop"]))
+            ret = find_root_brents(f, **kw)
+        except (AssertionError, ZeroDivisionError):
+            continue
+        except Exception as e:
+            rep.fail(f"find_root_brents raised {type(e).__name__}: {e}", {k: v for k, v in c.items() if k != "f"})
+            continue
+        ends = 0 if give_ends else 2
+        ys = [y for _, y in calls[ends:]]
+        xs = [x for x, _ in calls[ends:]]
+        data = dict(kind=c["kind"], r=c["r"], start=c["start"], stop=c["stop"], tol=c["tol"], eps=c["eps"],
+                    returned=ret, n_evals=len(ys), lo_hi=[c["f"](c["start"]), c["f"](c["stop"])])
+        rep.hist("loop_evals_bucket", min(len(ys) // 25 * 25, 300))
+        if not (abs(ret - c["r"]) <= c["tol"] * (1 + 1e-9) + 1e-12 * max(1.0, abs(c["r"]))):
+            rep.fail(f"find_root_brents returned {ret!r}, {abs(ret - c['r']):.3g} away from the sign change at {c['r']!r} "
+                     f"(tolerance {c['tol']!r}) after {len(ys)} evaluations", data)
+        if any(not (c["start"] <= x <= c["stop"]) for x in xs):
+            rep.fail("find_root_brents evaluated f outside the bracket", data)
+        lines.append(" ".join(["brent.tape", f2b(c["start"]), f2b(c["stop"]), f2b(c["f"](c["start"])), f2b(c["f"](c["stop"])),
+                               f2b(c["eps"]), f2b(c["tol"]), lst(f2b(y) for y in ys)]))
+        meta.append((data, xs, ret))
+    try:
+        out = Driver().batch(lines)
+    except LeanError as e:
+        rep.broke("driver: " + str(e)[-600:])
+        return
+    bad = 0
+    for l, o, (data, xs, ret) in zip(lines, out, meta):
+        rep.case(key=l, nontrivial=data["n_evals"] >= 2, sample={"loop": {k: data[k] for k in ("kind", "tol", "n_evals", "returned")}})
+        parts = o.split(" ")
+        ok = parts[0] == "ok" and parts[-1] == "1" and parts[1] == lst(f2b(x) for x in xs) and parts[3] == f2b(ret)
+        if not ok:
+            bad += 1
+            if bad <= 3:
+                rep.broke(f"correspondence find_root_brents vs Model.Brent.findRoot: {json.dumps(data)} model={o[-200:]}")
+    rep.extra["loop_level_cases"] = len(lines)
+    rep.extra["loop_level_disagreements"] = bad
+
+
 # ------------------------------------------------------------------ property oracle on the real code
 def oracle(case, status, xs, ys, fin):
     """The statement of C19 evaluated on one real run. Returns a failure string or None."""
@@ -465,6 +589,8 @@ def check(rep: Report, tier: str, seed: int) -> None:
                           + f" model={mo[:200]} impl={io[:200]}")
     rep.extra["correspondence_disagreements"] = dis
     state_correspondence(rep, rng, 4000 if tier == "quick" else 200000)
+    loop_level(rep, seeded(seed * 48611 + 5), 120 if tier == "quick" else 4000)
+    ulp_finding(rep)
     if rep.broken and not rep.failing:
         search(rep, seed, 4000 if tier == "quick" else 60000)
 
